@@ -11,7 +11,7 @@ sys.path.insert(0, HERE)
 sys.dont_write_bytecode = True
 
 from vstat.index import SourceIndex  # noqa: E402
-from vstat.rules.shared import handler_table, guarded_lookups  # noqa: E402
+from vstat.rules.shared import handler_table, guarded_lookups, subscript_stores  # noqa: E402
 
 idx = SourceIndex(sys.argv[1] if len(sys.argv) > 1 else '/repo')
 out = {}
@@ -22,6 +22,7 @@ for rel, module in sorted(idx.modules.items()):
         out[rel] = table
         n += sum(len(v) for v in table.values())
 out['#lookups'] = {rel: guarded_lookups(module) for rel, module in sorted(idx.modules.items()) if guarded_lookups(module)}
+out['#stores'] = {rel: subscript_stores(module) for rel, module in sorted(idx.modules.items()) if subscript_stores(module)}
 with open(os.path.join(HERE, 'vstat', 'handlers.json'), 'w') as handle:
     json.dump(out, handle, indent=0, sort_keys=True)
 print('modules', len(out), 'handlers', n)
